@@ -29,6 +29,7 @@ const (
 	kInt
 	kStruct
 	kNil
+	kRef // the address of a variable or field that does not hold a struct (e.g. &g.extra with extra a pointer)
 )
 
 type val struct {
@@ -39,6 +40,32 @@ type val struct {
 	f    map[string]*val
 	typ  types.Type
 	str  bool // a string value (compared only for equality)
+	maybeNil bool // an input of pointer/interface/slice type: it may be nil
+	refBox   *val           // kRef: the struct whose field is addressed (nil: a frame variable)
+	refField string         // kRef: the field
+	refObj   types.Object   // kRef: the frame variable
+	refFrame *e8frame
+}
+
+func (v *val) refGet() *val {
+	if v.refBox != nil {
+		if t := v.refBox.f[v.refField]; t != nil {
+			return t
+		}
+		return &val{k: kNil}
+	}
+	if t := v.refFrame.vars[v.refObj]; t != nil {
+		return t
+	}
+	return &val{k: kNil}
+}
+
+func (v *val) refSet(x *val) {
+	if v.refBox != nil {
+		v.refBox.f[v.refField] = x
+		return
+	}
+	v.refFrame.vars[v.refObj] = x
 }
 
 func isStringVal(v *val) bool {
@@ -61,6 +88,9 @@ func (v *val) clone() *val {
 		return nil
 	}
 	n := *v
+	if v.k == kRef {
+		return &n
+	}
 	if v.f != nil {
 		n.f = map[string]*val{}
 		for k, x := range v.f {
@@ -131,6 +161,7 @@ type e8interp struct {
 	lenEqOpaque bool     // treat len(x) == const as an opaque boolean
 	trace   []e8call     // opaque calls executed on this run, in order
 	opaque  map[*types.Func]bool // repository functions that must not be entered
+	frozen  map[types.Object]bool // variables whose assignments are ignored (they stay inputs)
 }
 
 // e8call records one executed call whose body the interpreter does not enter
@@ -189,7 +220,7 @@ func (in *e8interp) newInputD(path string, t types.Type, d int) *val {
 		}
 		return v
 	case *types.Interface:
-		return &val{k: kStruct, f: map[string]*val{}, typ: t, name: path}
+		return &val{k: kStruct, f: map[string]*val{}, typ: t, name: path, maybeNil: true}
 	case *types.Array:
 		v := &val{k: kStruct, f: map[string]*val{}, typ: t}
 		for i := int64(0); i < u.Len() && i < 8; i++ {
@@ -197,10 +228,12 @@ func (in *e8interp) newInputD(path string, t types.Type, d int) *val {
 		}
 		return v
 	case *types.Pointer:
-		return in.newInputD(path, u.Elem(), d+1)
+		v := in.newInputD(path, u.Elem(), d+1)
+		v.maybeNil = true
+		return v
 	case *types.Slice:
 		// elements are created on demand by constant index
-		return &val{k: kStruct, f: map[string]*val{}, typ: t, name: path}
+		return &val{k: kStruct, f: map[string]*val{}, typ: t, name: path, maybeNil: true}
 	case *types.Basic:
 		switch {
 		case u.Info()&types.IsBoolean != 0:
@@ -275,6 +308,26 @@ func (in *e8interp) rankOf(v *val) (int, int) {
 }
 
 func (in *e8interp) compare(op token.Token, l, r *val) bool {
+	if (op == token.EQL || op == token.NEQ) && (isStringVal(l) || isStringVal(r)) && l.k != kNil && r.k != kNil {
+		// strings are compared for equality only: an opaque boolean per pair
+		ln, rn := in.symName(l), in.symName(r)
+		name := ln + "==" + rn
+		if rn < ln {
+			name = rn + "==" + ln
+		}
+		var b bool
+		if in.collect != nil {
+			in.collect.bools[name] = true
+		} else if ln == rn {
+			b = true
+		} else {
+			b = in.a.B(name)
+		}
+		if op == token.NEQ {
+			b = !b
+		}
+		return b
+	}
 	if l.k == kBool || r.k == kBool {
 		lb, rb := in.boolOf(l), in.boolOf(r)
 		switch op {
@@ -404,6 +457,9 @@ func (in *e8interp) eval(fr *e8frame, e ast.Expr) *val {
 				name = ln
 			}
 			v := in.newInput(name, o.Type())
+			if vr, ok := o.(*types.Var); ok && o.Pkg() != nil && vr.Parent() == o.Pkg().Scope() && o.Type().String() == "error" {
+				v.maybeNil = false // package-level error values (errors.New(...)) are not nil
+			}
 			fr.vars[o] = v
 			return v
 		}
@@ -428,13 +484,35 @@ func (in *e8interp) eval(fr *e8frame, e ast.Expr) *val {
 		}
 		e8fail("unsupported selector %s", types.ExprString(e))
 	case *ast.StarExpr:
-		return in.eval(fr, x.X)
+		v := in.eval(fr, x.X)
+		if v.k == kRef {
+			return v.refGet()
+		}
+		return v
 	case *ast.UnaryExpr:
 		switch x.Op {
 		case token.NOT:
 			return &val{k: kBool, b: !in.boolOf(in.eval(fr, x.X))}
 		case token.AND:
-			return in.eval(fr, x.X)
+			v := in.eval(fr, x.X)
+			_, isStructLoc := info.TypeOf(x.X).Underlying().(*types.Struct)
+			if _, isArr := info.TypeOf(x.X).Underlying().(*types.Array); isArr {
+				isStructLoc = true
+			}
+			if !isStructLoc {
+				// the address of a location that holds a pointer, interface or scalar: keep a reference so that writes through it are seen
+				switch t := ast.Unparen(x.X).(type) {
+				case *ast.SelectorExpr:
+					if box := in.eval(fr, t.X); box.k == kStruct {
+						return &val{k: kRef, refBox: box, refField: t.Sel.Name}
+					}
+				case *ast.Ident:
+					if o := info.Uses[t]; o != nil {
+						return &val{k: kRef, refObj: o, refFrame: fr}
+					}
+				}
+			}
+			return v
 		case token.SUB:
 			v := in.eval(fr, x.X)
 			if v.k == kInt {
@@ -459,13 +537,31 @@ func (in *e8interp) eval(fr *e8frame, e ast.Expr) *val {
 		l, r := in.eval(fr, x.X), in.eval(fr, x.Y)
 		if isCmp(x.Op) {
 			if l.k == kNil || r.k == kNil {
-				// x == nil on an input: an opaque boolean
-				name := types.ExprString(e)
+				other := l
+				if l.k == kNil {
+					other = r
+				}
+				if other.k == kRef {
+					other = other.refGet()
+				}
+				// a value the run built itself is known to be nil or not
+				if other.k == kNil || (other.k == kStruct && !other.maybeNil) {
+					isNil := other.k == kNil
+					if in.collect == nil || true {
+						return &val{k: kBool, b: isNil == (x.Op == token.EQL)}
+					}
+				}
+				// x == nil on an input: an opaque boolean, named by the value (so that two spellings of one fact agree)
+				src := x.X
+				if l.k == kNil {
+					src = x.Y
+				}
+				name := "isnil(" + in.valName(other, src) + ")"
 				if in.collect != nil {
 					in.collect.bools[name] = true
 					return &val{k: kBool}
 				}
-				return &val{k: kBool, b: in.a.B(name)}
+				return &val{k: kBool, b: in.a.B(name) == (x.Op == token.EQL)}
 			}
 			if (x.Op == token.EQL || x.Op == token.NEQ) && (isStringVal(l) || isStringVal(r)) {
 				name := in.symName(l) + "==" + in.symName(r)
@@ -533,6 +629,24 @@ func (in *e8interp) eval(fr *e8frame, e ast.Expr) *val {
 		v := in.newInput(name, info.TypeOf(e))
 		fr.named[name] = v
 		return v
+	case *ast.TypeAssertExpr:
+		if x.Type != nil {
+			ov := in.evalQuiet(fr, x.X)
+			t := info.TypeOf(x.Type)
+			oname := in.valName(ov, x.X)
+			name := "is(" + oname + "," + typeStr(t) + ")"
+			var ok bool
+			if in.collect != nil {
+				in.collect.bools[name] = true
+			} else {
+				ok = in.a.B(name)
+			}
+			v := in.newInput(oname+".("+typeStr(t)+")", t)
+			if tup, isTup := info.TypeOf(e).(*types.Tuple); isTup && tup.Len() == 2 {
+				return &val{k: kStruct, f: map[string]*val{"0": v, "1": {k: kBool, b: ok}}, typ: tup}
+			}
+			return v
+		}
 	case *ast.CompositeLit:
 		t := info.TypeOf(x)
 		v := zeroVal(t)
@@ -762,6 +876,9 @@ func (in *e8interp) assignTo(fr *e8frame, e ast.Expr, v *val, define bool) {
 		if o == nil {
 			o = info.Uses[x]
 		}
+		if in.frozen[o] {
+			return
+		}
 		fr.vars[o] = v.clone()
 		return
 	case *ast.SelectorExpr:
@@ -780,6 +897,10 @@ func (in *e8interp) assignTo(fr *e8frame, e ast.Expr, v *val, define bool) {
 		fr.named[types.ExprString(e)] = v.clone()
 		return
 	case *ast.StarExpr:
+		if pv := in.evalQuiet(fr, x.X); pv != nil && pv.k == kRef {
+			pv.refSet(v.clone())
+			return
+		}
 		in.assignTo(fr, x.X, v, define)
 		return
 	}
@@ -806,7 +927,12 @@ func (in *e8interp) exec(fr *e8frame, st ast.Stmt) *e8return {
 	case *ast.ReturnStmt:
 		r := &e8return{}
 		for _, e := range s.Results {
-			r.vals = append(r.vals, in.eval(fr, e).clone())
+			v := in.eval(fr, e).clone()
+			if v.k == kBool && v.name != "" {
+				// a returned opaque boolean is an atom like any other
+				v = &val{k: kBool, b: in.boolOf(v), typ: v.typ}
+			}
+			r.vals = append(r.vals, v)
 		}
 		if len(s.Results) == 0 {
 			r.vals = nil
@@ -847,6 +973,19 @@ func (in *e8interp) exec(fr *e8frame, st ast.Stmt) *e8return {
 						in.assignTo(fr, s.Lhs[0], &val{k: kInt, n: l.n - r.n}, false)
 						return nil
 					}
+				}
+			}
+			if len(s.Lhs) == 1 {
+				l := in.eval(fr, s.Lhs[0])
+				r := in.eval(fr, s.Rhs[0])
+				if (l.k == kScalar || l.k == kInt) && (r.k == kScalar || r.k == kInt) {
+					op := strings.TrimSuffix(s.Tok.String(), "=")
+					ln, rn := in.symName(l), in.symName(r)
+					if (op == "+" || op == "*") && rn < ln {
+						ln, rn = rn, ln
+					}
+					in.assignTo(fr, s.Lhs[0], &val{k: kScalar, name: "(" + ln + op + rn + ")"}, false)
+					return nil
 				}
 			}
 			e8fail("unsupported assignment %s", s.Tok)
@@ -1013,6 +1152,81 @@ func (in *e8interp) exec(fr *e8frame, st ast.Stmt) *e8return {
 			if in.collect != nil {
 				in.execCopy(fr, &ast.BlockStmt{List: def.Body})
 				return nil
+			}
+			return in.switchBody(fr, def.Body)
+		}
+		return nil
+	case *ast.TypeSwitchStmt:
+		// switch v := x.(type): each case is an opaque boolean "x is T"; v is x seen as a T
+		var operand ast.Expr
+		var bound *ast.Ident
+		switch a := s.Assign.(type) {
+		case *ast.AssignStmt:
+			if ta, ok := ast.Unparen(a.Rhs[0]).(*ast.TypeAssertExpr); ok {
+				operand = ta.X
+			}
+			bound, _ = a.Lhs[0].(*ast.Ident)
+		case *ast.ExprStmt:
+			if ta, ok := ast.Unparen(a.X).(*ast.TypeAssertExpr); ok {
+				operand = ta.X
+			}
+		}
+		if operand == nil {
+			e8fail("unsupported type switch")
+		}
+		ov := in.evalQuiet(fr, operand)
+		oname := in.valName(ov, operand)
+		var def *ast.CaseClause
+		for _, cl := range s.Body.List {
+			cc := cl.(*ast.CaseClause)
+			if cc.List == nil {
+				def = cc
+				continue
+			}
+			hit := false
+			var hitType types.Type
+			for _, te := range cc.List {
+				t := info.TypeOf(te)
+				name := "is(" + oname + "," + typeStr(t) + ")"
+				if in.collect != nil {
+					in.collect.bools[name] = true
+					hitType = t
+					continue
+				}
+				if in.a.B(name) {
+					hit, hitType = true, t
+					break
+				}
+			}
+			bind := func() {
+				if o := info.Implicits[cc]; o != nil && hitType != nil {
+					fr.vars[o] = in.newInput(oname+".("+typeStr(hitType)+")", hitType)
+				}
+				_ = bound
+			}
+			if in.collect != nil {
+				nf := newFrame(fr.pkg)
+				for k, v := range fr.vars {
+					nf.vars[k] = v.clone()
+				}
+				if o := info.Implicits[cc]; o != nil && hitType != nil {
+					nf.vars[o] = in.newInput(oname+".("+typeStr(hitType)+")", hitType)
+				}
+				in.runBody(nf, cc.Body)
+				continue
+			}
+			if hit {
+				bind()
+				return in.switchBody(fr, cc.Body)
+			}
+		}
+		if def != nil {
+			if in.collect != nil {
+				in.execCopy(fr, &ast.BlockStmt{List: def.Body})
+				return nil
+			}
+			if o := info.Implicits[def]; o != nil && ov != nil {
+				fr.vars[o] = ov
 			}
 			return in.switchBody(fr, def.Body)
 		}
